@@ -52,6 +52,41 @@ func (fr *frame) freshResults(v ssa.Value, sig *types.Signature, st *State, g st
 
 func (fr *frame) call(v ssa.Value, c *ssa.CallCommon, st *State, g string, isDeferred bool) {
 	vc := fr.vc
+	// local cells whose address this call receives are not protected from the callee's effects
+	prevPassed := vc.passedToCurrentCall
+	vc.passedToCurrentCall = func(lc localCell) bool {
+		if prevPassed != nil && prevPassed(lc) {
+			return true
+		}
+		a, ok := lc.alloc.(*ssa.Alloc)
+		if !ok {
+			return false
+		}
+		for _, arg := range c.Args {
+			root := arg
+			for {
+				if fa, ok := root.(*ssa.FieldAddr); ok {
+					root = fa.X
+				} else if ia, ok := root.(*ssa.IndexAddr); ok {
+					root = ia.X
+				} else {
+					break
+				}
+			}
+			if root == ssa.Value(a) {
+				return true
+			}
+		}
+		if mc, ok := c.Value.(*ssa.MakeClosure); ok {
+			for _, b := range mc.Bindings {
+				if b == ssa.Value(a) {
+					return true
+				}
+			}
+		}
+		return false
+	}
+	defer func() { vc.passedToCurrentCall = prevPassed }()
 	pos := c.Pos()
 	hint := "call"
 	if v != nil {
@@ -649,7 +684,12 @@ func (fr *frame) applyContract(d *Decl, callee *ssa.Function, sig *types.Signatu
 	}
 	bindResults(post, callee, sig, res)
 	for _, c := range d.Get("ensures") {
-		f := post.trBool(c.E)
+		// a clause that speaks about the callee's internals (names bound by its `bind` clauses) means nothing to a caller: skipped
+		f, ok := post.tryBool(c.E)
+		if !ok {
+			vc.note("ensures[" + c.Label + "] of " + key + " refers to names internal to the callee: not available to callers")
+			continue
+		}
 		vc.assumeG(g, f)
 	}
 	// `defines e`: the implementation *is* the abstract (interface-level) function at its receiver type; assumed at
